@@ -4,82 +4,109 @@ A term is one of
   int                                   integer
   [n, d]                                rational n/d            (list of two ints)
   {"q":[n,d]}                           rational
-  {"sqrt":T}  {"acos":T}                irrational functions of a term
+  {"ref":name}                          a named parameter, looked up in env (env values are terms or numbers)
+  {"sqrt":T} {"acos":T} {"asin":T} {"ln":T}   irrational functions of a term
   {"pi":k,"x":T}                        T * pi**k
   {"sum":[T..]}  {"mul":[T..]}          finite sums / products
   {"div":[T,T]}                         quotient
   {"pow":k,"x":T}                       T**k (k integer)
-  {"vec":[T..]}                         vector / nested -> list
-Fractions are kept exact as long as possible; irrational parts are evaluated in double precision.
+  {"encl":[Tlo,Thi]}                    rigorous enclosure -> (lo, hi)
+  {"vec":[T..]} / nested lists          elementwise
+Rationals stay exact (fractions.Fraction).  pi and square roots are carried as 50-digit rational
+approximations so that sums/products stay far more accurate than the double-precision values they are compared
+with; acos/asin/ln are evaluated in double precision.
 """
 import math
 from fractions import Fraction
 
+PI = Fraction(314159265358979323846264338327950288419716939937510, 10 ** 50)
+_SCALE = 10 ** 45
 
-def is_exact(v):
-    return isinstance(v, (int, Fraction))
+
+def _sqrt(v):
+    v = Fraction(v)
+    if v < 0:
+        raise ValueError("sqrt of negative term")
+    rn, rd = math.isqrt(v.numerator), math.isqrt(v.denominator)
+    if rn * rn == v.numerator and rd * rd == v.denominator:
+        return Fraction(rn, rd)
+    return Fraction(math.isqrt(v.numerator * _SCALE * _SCALE // v.denominator), _SCALE)
 
 
-def ev(t):
-    """Evaluate a term to Fraction when exact, else float; lists map elementwise."""
+class Env(dict):
+    pass
+
+
+def make_env(pairs, extra=None):
+    """pairs: list of [name, term] bound in order (later entries may refer to earlier ones)."""
+    env = Env()
+    for name, t in pairs:
+        env[name] = ev(t, env)
+    if extra:
+        env.update(extra)
+    return env
+
+
+def ev(t, env=None):
+    """Evaluate a term to a Fraction (float if acos/asin/ln occur); lists map elementwise."""
     if isinstance(t, bool):
         return t
-    if isinstance(t, int):
+    if isinstance(t, (int, Fraction)):
         return Fraction(t)
-    if isinstance(t, Fraction):
-        return t
     if isinstance(t, float):
         return t
     if isinstance(t, list):
         if len(t) == 2 and all(isinstance(x, int) and not isinstance(x, bool) for x in t):
             return Fraction(t[0], t[1])
-        return [ev(x) for x in t]
+        return [ev(x, env) for x in t]
     if isinstance(t, dict):
         if "q" in t:
             return Fraction(t["q"][0], t["q"][1])
+        if "ref" in t:
+            return env[t["ref"]]
         if "vec" in t:
-            return [ev(x) for x in t["vec"]]
+            return [ev(x, env) for x in t["vec"]]
+        if "encl" in t:
+            return (ev(t["encl"][0], env), ev(t["encl"][1], env))
         if "sqrt" in t:
-            v = ev(t["sqrt"])
-            if is_exact(v):
-                v = Fraction(v)
-                rn, rd = math.isqrt(v.numerator), math.isqrt(v.denominator)
-                if rn * rn == v.numerator and rd * rd == v.denominator:
-                    return Fraction(rn, rd)
-            return math.sqrt(float(v))
+            v = ev(t["sqrt"], env)
+            return math.sqrt(v) if isinstance(v, float) else _sqrt(v)
         if "acos" in t:
-            return math.acos(max(-1.0, min(1.0, float(ev(t["acos"])))))
+            return math.acos(max(-1.0, min(1.0, float(ev(t["acos"], env)))))
+        if "asin" in t:
+            return math.asin(max(-1.0, min(1.0, float(ev(t["asin"], env)))))
+        if "ln" in t:
+            return math.log(float(ev(t["ln"], env)))
         if "pi" in t:
+            v = ev(t.get("x", 1), env)
             k = t["pi"]
-            v = ev(t.get("x", 1))
-            return float(v) * math.pi ** k if k != 0 else v
+            return v * (math.pi ** k) if isinstance(v, float) else v * PI ** k
         if "sum" in t:
-            vs = [ev(x) for x in t["sum"]]
-            ex = [v for v in vs if is_exact(v)]
-            fl = [float(v) for v in vs if not is_exact(v)]
-            s = sum(ex, Fraction(0))
-            return s if not fl else math.fsum([float(s)] + fl)
+            vs = [ev(x, env) for x in t["sum"]]
+            if any(isinstance(v, float) for v in vs):
+                return math.fsum(float(v) for v in vs)
+            return sum(vs, Fraction(0))
         if "mul" in t:
             r = Fraction(1)
             for x in t["mul"]:
-                v = ev(x)
-                r = r * v if is_exact(r) and is_exact(v) else float(r) * float(v)
+                v = ev(x, env)
+                r = float(r) * float(v) if isinstance(r, float) or isinstance(v, float) else r * v
             return r
         if "div" in t:
-            a, b = ev(t["div"][0]), ev(t["div"][1])
-            return a / b if is_exact(a) and is_exact(b) else float(a) / float(b)
+            a, b = ev(t["div"][0], env), ev(t["div"][1], env)
+            return float(a) / float(b) if isinstance(a, float) or isinstance(b, float) else a / b
         if "pow" in t:
-            v = ev(t["x"])
+            v = ev(t["x"], env)
             return v ** t["pow"]
     raise ValueError(f"not a term: {t!r}")
 
 
-def fl(t):
-    v = ev(t)
-    if isinstance(v, list):
-        return _fl_list(v)
+def fl(t, env=None):
+    v = ev(t, env)
+    return _fl(v)
+
+
+def _fl(v):
+    if isinstance(v, (list, tuple)):
+        return [_fl(x) for x in v]
     return float(v)
-
-
-def _fl_list(v):
-    return [_fl_list(x) if isinstance(x, list) else float(x) for x in v]
